@@ -19,7 +19,7 @@ import socket
 import warnings
 
 from .. import rig  # noqa: F401
-from .. import core
+from .. import core, env
 from ..vloop import Deadlock, VLoop
 from puresnmp.exc import Timeout
 from puresnmp.transport import Endpoint, send_udp
@@ -119,6 +119,13 @@ def make_script_factory(seq, timeout):
                 loop.call_later(timeout * 0.3, transport.fatal, OSError(5, "socket went away"))
             elif outcome == "closed":
                 loop.call_later(timeout * 0.3, transport.closed_externally)
+            elif outcome == "jump":
+                # no reply, and the host's WALL clock is stepped forward by an hour while
+                # the attempt is outstanding (no time passes for the event loop)
+                def step():
+                    env.CLOCK.wall_offset += 3600.0
+
+                loop.call_later(timeout * 0.5, step)
 
         return script
 
@@ -255,7 +262,7 @@ def judge_virtual(R, case, seq, retries, timeout, res, t0, log, transports):
             R.mon["replies_returned_unmodified"] += 1
             ended = True
             break
-        if o in ("none", "late"):
+        if o in ("none", "late", "jump"):
             t += timeout
             i += 1
             continue
@@ -385,6 +392,24 @@ def virtual_part(R):
             R.mon["virtual_sequences_run"] += 1
             R.mon["closed_without_error_run"] += 1
             judge_virtual(R, case, seq, retries, 1, res, t0, log, transports)
+    # the wall clock jumps while a request is outstanding
+    for retries in (2, 3):
+        for seq in (("jump",) + ("reply",), ("jump", "none", "reply"), ("jump",) * retries, ("none", "jump", "reply")):
+            if len(seq) > retries:
+                continue
+            k += 1
+            if not R.mine(k):
+                continue
+            case = {"part": "virtual", "seq": list(seq), "retries": retries, "timeout": 1}
+            env.CLOCK.wall_offset = 0.0
+            try:
+                res, t0, log, transports, hygiene = run_virtual(seq, retries, 1)
+            finally:
+                env.CLOCK.wall_offset = 0.0
+            R.case(("c13a", retries, 1, seq), True)
+            R.mon["virtual_sequences_run"] += 1
+            R.mon["wall_clock_jumps_run"] += 1
+            judge_virtual(R, case, seq, retries, 1, res, t0, log, transports)
     for j, content in enumerate(BERLIKE):
         for seq in (("reply",), ("none", "reply"), ("two",)):
             k += 1
@@ -478,6 +503,9 @@ class Peer(asyncio.DatagramProtocol):
             self.transport.sendto(b"real-second-%d" % i, addr)
 
 
+BLOCK = [0.0]  # seconds for which a foreign task blocks the loop during the first attempt
+
+
 async def real_case(plan, retries, timeout, closed_port):
     loop = asyncio.get_running_loop()
     peer = None
@@ -491,6 +519,12 @@ async def real_case(plan, retries, timeout, closed_port):
         ptransport, peer = await loop.create_datagram_endpoint(lambda: Peer(plan), local_addr=("127.0.0.1", 0))
         port = ptransport.get_extra_info("sockname")[1]
     before = fd_set()
+    if BLOCK[0]:
+        # another task of the application hogs the event loop (in REAL time) while an
+        # attempt is unanswered: timers fire late, the number of transmissions stays bounded
+        import time as _time
+
+        loop.call_later(0.05, _time.sleep, BLOCK[0])
     try:
         val = await send_udp(Endpoint(ipaddress.ip_address("127.0.0.1"), port), REQUEST, timeout=timeout, retries=retries)
         res = ("ok", val)
@@ -591,11 +625,34 @@ def real_part(R):
                 R.inconclusive("real-socket case %r stayed timing-ambiguous after a replay: %r" % (case, res))
 
 
+def blocked_loop_part(R):
+    k = 0
+    for retries in (2, 3):
+        for block in (1.3,):
+            k += 1
+            if not R.mine(k):
+                continue
+            plan = ("silent",) * retries
+            case = {"part": "real", "plan": list(plan), "retries": retries, "closed_port": False, "timeout": 0.3, "block": block}
+            BLOCK[0] = block
+            try:
+                res, leaked, received, rw = run_real(plan, retries, 0.3, False)
+            finally:
+                BLOCK[0] = 0.0
+            R.case(("c13b-blocked", retries, block), True)
+            R.mon["real_socket_cases"] += 1
+            R.mon["blocked_loop_cases"] += 1
+            verdict = judge_real(R, case, plan, retries, False, res, leaked, received, rw)
+            if verdict == "ambiguous":
+                R.mon["real_timing_ambiguous"] += 1
+
+
 def run(R):
     core.install_socket_audit()
     complete = virtual_part(R)
     R.exhaustive = bool(complete)
     real_part(R)
+    blocked_loop_part(R)
 
 
 def replay(R, v):
@@ -607,6 +664,7 @@ def replay(R, v):
         R.evaluations += 1
         return
     if c["part"] == "real":
+        BLOCK[0] = c.get("block", 0.0)
         res, leaked, received, rw = run_real(tuple(c["plan"]), c["retries"], c["timeout"], c["closed_port"])
         judge_real(R, c, tuple(c["plan"]), c["retries"], c["closed_port"], res, leaked, received, rw)
     else:
